@@ -99,11 +99,11 @@ func parseModel(out string) map[string]string {
 // with a longer limit.  A query that is decided in seconds on an idle machine can exceed the
 // race limit when sixteen functions are being solved at once; an undecided obligation is
 // reported as a violation, so it must not depend on the load.
-func retryUnknown(obls []*Obligation, secs int) {
+func retryUnknown(obls []*Obligation, secs int, skip map[string]bool) {
 	var wg sync.WaitGroup
 	sem := make(chan struct{}, 2)
 	for _, o := range obls {
-		if o.Cover || o.Status != "unknown" || o.File == "" {
+		if o.Cover || o.Status != "unknown" || o.File == "" || skip[o.Name] {
 			continue
 		}
 		o := o
